@@ -14,6 +14,7 @@ S6 snapshot_context copies what it walks: no variable of the first copy loop is 
 from __future__ import annotations
 
 import ast
+import re
 from typing import Dict, List, Optional, Set, Tuple
 
 from ..astq import assignments, calls, kwarg, local_from, params, stmts
@@ -316,24 +317,41 @@ def s4(chk: Check, proj: Project, w) -> None:
     if len(members) < 2:
         raise AnalysisError("ContextBehavior members not found")
     ctxp = params(f)[1]
-    first = next((s for s in f.body if isinstance(s, ast.If)), None)
-    ok = first is not None and norm(first.test).endswith("not slot_fill.is_filled") and any(isinstance(r, ast.Return) and norm(r.value) == ctxp for r in first.body)
-    chk.ob("S4", "slots:_resolve_slot_context:unfilled-current-context", m.loc(first) if first is not None else m.loc(f), ok, "default content is rendered in the current context")
-    tests = [norm(s.test) for s in stmts(f) if isinstance(s, ast.If)]
+    # decided on the path conditions of the return / raise statements (independent of how the branches are nested)
+    rets = [r for r in stmts(f) if isinstance(r, ast.Return) and r.value is not None]
+    raises = [r for r in stmts(f) if isinstance(r, ast.Raise)]
+
+    def under(st: ast.AST) -> Dict[str, bool]:
+        """member -> True (this statement runs only if behaviour == member) / False (only if != member)"""
+        out: Dict[str, bool] = {}
+        for t, pol in cond_atoms(st):
+            mm_ = re.match(r"^(.*) (==|!=) ContextBehavior\.(\w+)$", t)
+            if mm_:
+                out[mm_.group(3)] = (mm_.group(2) == "==") == pol
+        return out
+
+    def unfilled(st: ast.AST) -> Optional[bool]:
+        for t, pol in cond_atoms(st):
+            if t.endswith("slot_fill.is_filled") or t.endswith(".is_filled"):
+                return not pol if not t.startswith("not ") else pol
+        return None
+
+    uf = [r for r in rets if unfilled(r) is True]
+    ok = bool(uf) and all(norm(r.value) == ctxp for r in uf)
+    chk.ob("S4", "slots:_resolve_slot_context:unfilled-current-context", m.loc(uf[0]) if uf else m.loc(f), ok, "default content is rendered in the current context")
+    filled = [r for r in rets if unfilled(r) is not True]
     for mem in members:
-        ok = any(t.endswith(f"== ContextBehavior.{mem}") for t in tests)
-        chk.ob("S4", f"slots:_resolve_slot_context:branch-{mem}", m.loc(f), ok, f"has a branch for ContextBehavior.{mem}" if ok else f"no branch for ContextBehavior.{mem}")
-    chk.ob("S4", "slots:_resolve_slot_context:else-raises", m.loc(f), any(isinstance(s, ast.Raise) for s in stmts(f)), "an unknown behaviour raises")
-    # ISOLATED -> outer context (lexical scope of the fill), DJANGO -> current
-    for s in [x for x in stmts(f) if isinstance(x, ast.If)]:
-        t = norm(s.test)
-        rets = [norm(r.value) for r in s.body if isinstance(r, ast.Return) and r.value is not None]
-        if t.endswith("ContextBehavior.ISOLATED"):
-            ok = bool(rets) and "outer_context" in rets[0]
-            chk.ob("S4", "slots:_resolve_slot_context:isolated-uses-outer-context", m.loc(s), ok, "isolated: fills evaluate in the component's outer context" if ok else f"isolated mode renders fills in `{rets}`, not in the outer context: fill content sees the inner component's variables")
-        if t.endswith("ContextBehavior.DJANGO"):
-            ok = rets == [ctxp]
-            chk.ob("S4", "slots:_resolve_slot_context:django-uses-current-context", m.loc(s), ok, "django: fills evaluate in the current context")
+        mine = [r for r in filled if under(r).get(mem) is True or (len(members) == 2 and any(under(r).get(o) is False for o in members if o != mem) and under(r).get(mem) is not False)]
+        chk.ob("S4", f"slots:_resolve_slot_context:branch-{mem}", m.loc(mine[0]) if mine else m.loc(f), bool(mine), f"has a branch for ContextBehavior.{mem}" if mine else f"no branch for ContextBehavior.{mem}")
+        if mem == "ISOLATED" and mine:
+            okm = all("outer_context" in norm(r.value) or any("outer_context" in norm(v) for x in ast.walk(r.value) if isinstance(x, ast.Name) for _s, v in assignments(f, x.id) if v is not None) for r in mine)
+            chk.ob("S4", "slots:_resolve_slot_context:isolated-uses-outer-context", m.loc(mine[0]), okm, "isolated: fills evaluate in the component's outer context" if okm else f"isolated mode renders fills in `{[norm(r.value) for r in mine]}`, not in the outer context: fill content sees the inner component's variables")
+        if mem == "DJANGO" and mine:
+            okm = all(norm(r.value) == ctxp for r in mine)
+            chk.ob("S4", "slots:_resolve_slot_context:django-uses-current-context", m.loc(mine[0]), okm, "django: fills evaluate in the current context")
+    # anything else raises: a raise that runs when the behaviour equals none of the members
+    okr = any(all(under(r).get(mem) is False for mem in members) for r in raises)
+    chk.ob("S4", "slots:_resolve_slot_context:else-raises", m.loc(raises[0]) if raises else m.loc(f), okr, "an unknown behaviour raises")
 
 
 def s5(chk: Check, proj: Project, w) -> None:
